@@ -200,7 +200,7 @@ PROPS = {
                  'generated code of every variant (working tree generator)', 'parser'],
         'stubbed': ['clock (synctest fake clock)', 'the source file (simos overlay: content + mtime from the fake clock)', 'the editor', 'rebuild+restart of the app and restart of the watcher (model)',
                     'fsnotify itself (half of the runs feed raw Write events into the real watcher.loop through a backend-less fsnotify.Watcher value, so its 100 ms coalescing runs on the fake clock); the post-generation debounce in cmd.go is not run'],
-        'assumptions': ['two saves never share an mtime tick (the model advances the fake clock by 1 ms before every write)', 'renders inside the 100 ms TTL window are only required to equal some variant the text file has held since the build',
+        'assumptions': ['two saves never share an mtime tick (the model advances the fake clock by 1 ms before every write)', 'renders sooner than 2 s after the text file was written are only required to equal some variant the text file has held since the build (the implementation caches for 100 ms; the statement sets no bound and the oracle does not mirror the constant)', 'the coalesced event for a save must come out of the watcher loop within 2 s',
                         'a restarted watcher handles every file once and the program is rebuilt, as the initial walk of templ generate --watch does'],
     },
     'C17': {
